@@ -87,6 +87,9 @@ class IndexSum(Operator):
     def _simplify_indexed(self, multiindex):
         """Return a simplified Expr used in the constructor of Indexed(self, multiindex)."""
         A, i = self.ufl_operands
+        if i[0] in multiindex.indices():
+            # the summation index would capture an index of the multiindex
+            raise NotImplementedError("cannot move the indexing inside the sum")
         return IndexSum(Indexed(A, multiindex), i)
 
     def evaluate(self, x, mapping, component, index_values):
